@@ -212,7 +212,7 @@ class Contract:
     def __init__(self, target, props, params, pre=(), post=(), raises=None, post_exc=None, modifies=(),
                  returns=None, loops=None, unroll=None, inline=(), locals_=None, globals_=None,
                  build=None, always_inline=False, assume_noraise=False, any_raises=None, note="",
-                 ghost_pre=(), checks=None, max_cases=400, enter=(), obj_fields=None, obj_protocol=None, ghost=None, mutable_fields=(), obj_methods=None, opaque_methods=None, aliases=None, regex_total=None, lemmas=()):
+                 ghost_pre=(), checks=None, max_cases=400, enter=(), obj_fields=None, obj_protocol=None, ghost=None, mutable_fields=(), obj_methods=None, opaque_methods=None, aliases=None, regex_total=None, lemmas=(), assumed=None):
         self.target = target
         self.props = list(props)
         self.params = dict(params)
@@ -243,6 +243,7 @@ class Contract:
         self.aliases = dict(aliases or {})
         self.regex_total = dict(regex_total or {})
         self.lemmas = list(lemmas)
+        self.assumed = assumed   # reason: the contract is used at call sites but its function is NOT verified
         self._alias_map = None
         REGISTRY[target] = self
 
